@@ -60,9 +60,7 @@ def run():
             c.count_nontrivial(json.dumps([e[k] for k in ("a", "mode", "snr", "std", "via")]))
     if not c.replay_path:
         def neg(pred, mut, prefix):
-            e = copy.deepcopy(next(e for e in evs if pred(e)))
-            mut(e)
-            c.add_negative(e, prefix)
+            c.negative_from(evs, pred, mut, prefix)
         ok = lambda e: e["outcome"] == "ok" and len(e["calls"]) == 1
         def scale_bump(e):
             f = e["calls"][0]["scale"][0]
